@@ -2,7 +2,7 @@
 META = dict(
     engine="grid", level="exploration",
     technique="bounded-exhaustive grid of dyadic angles and wraps with an exact rational oracle",
-    text="All angles on a dyadic grid spanning several turns, for 12 wraps of both signs and zero, in int/float variants: range membership, "
+    text="All angles on a dyadic grid spanning several turns (for wrap 0 also multiples of 45 up to +-1080 and Fraction(0) as the wrap), for 12 wraps of both signs and zero, in int/float variants: range membership, "
          "whole-number-of-turns difference (exact Fractions), delta == wrap2(difference), wrap 0 identity.",
     note="Dyadic values keep IEEE arithmetic exact, so the oracle is exact; arbitrary floats and the 'proof' clause of the quantifier are outside this family.",
 )
@@ -22,6 +22,12 @@ def grid():
         div = 8 if core.TIER == "quick" else 128
         for k in steps:
             a = k * unit / div          # exact: dyadic
+            if w == 0:
+                # wrap 0 must leave EVERY angle unchanged: also angles far beyond any default wrap (180 / 360)
+                big = k * 45
+                out.append((big, 0))
+                out.append((float(big) + 0.5, 0.0))
+                out.append((big, Fr(0)))
             out.append((a, w))
             out.append((float(a), float(w)))
             if float(a).is_integer() and float(w).is_integer():
@@ -100,6 +106,14 @@ def work(arg):
             if not good:
                 p.violation("delta-wrong", case + " actual=%r" % (b,), "delta(%r,%r,%r)=%r, wrap2 of difference=%r" % (a, b, w, d, e),
                             dict(fn="delta", desired=a, actual=b, wrap=w, got=d))
+        # ---- documented defaults: wrap1 defaults to 360, wrap2 and delta to 180
+        if w == 180:
+            try:
+                dflt = (nav.wrap2(a) == nav.wrap2(a, 180)) and (nav.delta(a, 0) == nav.delta(a, 0, 180)) and (nav.wrap1(a) == nav.wrap1(a, 360))
+            except Exception as ex:
+                dflt = False
+            if not dflt:
+                p.violation("defaults-wrong", case, "wrap2(a)/delta(a,0)/wrap1(a) differ from the documented default wraps 180/180/360", dict(angle=a))
         if idx % 997 == 0:
             p.sample(dict(angle=a, wrap=w, wrap1=nav.wrap1(a, w), wrap2=nav.wrap2(a, w)))
     return p
